@@ -42,8 +42,9 @@ ASSUMPTIONS = [
     "exceptions Python raises implicitly at arbitrary expressions (AttributeError/TypeError/KeyError/IndexError/RecursionError/"
     "MemoryError) are covered only by the fuzz, except the two observed ones listed in IMPLICIT_SITES",
     "termination is not in the theorem (the fuzz turns a call exceeding 8 s into the observation Hung)",
-    "parser_mode='yaml' (and 'json' for one parser shape, judged against the yaml-mode IR: JSONDecodeError takes the place of YAMLError); no jsonnet/toml/omegaconf loaders, URL/fsspec paths, completions, deprecated error_handler, "
+    "parser_mode='yaml' (and 'json' for one parser shape, judged against the yaml-mode IR: JSONDecodeError takes the place of YAMLError); no jsonnet/toml/omegaconf loaders (toml shows the same integer-digit-limit leak as json did: notes/C03.md), URL/fsspec paths, completions, deprecated error_handler, "
     "JSONARGPARSE_DEBUG unset, stdin closed; functions behind get_class_parser (signature inspection) are summarised (BOUNDARY)",
+    "parsers nested below the root (sub-command parsers, ActionParser) may be built with any exit_on_error; what is judged is the channel of the ROOT parser whose parse method is called",
     "config objects handed to parse_object are dicts or Namespaces (the declared parameter type); argv items are str",
     "user code run during parsing (registered deserialisers, link compute functions, plain type= callables) keeps to its documented "
     "failure classes",
